@@ -66,9 +66,9 @@ class C10(framework.PropertyCheck):
                 tok, v = g.int_tok()
                 pos = rng.choice(['top', 'list', 'quote', 'offset', 'slice', 'slice2', 'nested'])
                 yield {'k': 'lit', 'tok': tok, 'v': v, 'pos': pos}
-            elif k == 3 and i % 16 == 3:
+            elif k == 3 and i % 32 == 3:
                 yield {'k': 'bool', 'tok': rng.choice(['#t', '#f', 'true', 'false']), 'pos': rng.choice(['top', 'list', 'quote', 'offset', 'slice', 'nested'])}
-            elif k == 3 and i % 16 == 11:
+            elif k == 3 and i % 32 == 19:
                 tok, v = g.int_tok()
                 yield {'k': 'evaltop', 'tok': rng.choice([tok, '0', '0x0', '0b000', '#f', '#t', '""', '"s"', 'false', '0.0', '1.5'])}
             elif k == 3:
